@@ -3,6 +3,7 @@
 //	-extra graphic  dump unicode.IsGraphic as maximal ranges "lo hi" (instantiates the model)
 //	-extra insp     model-vs-implementation: cases "S <hex bytes>", "C <rune>", "I <decimal>";
 //	                observed = hex of String/Char/SmallInt/BigInt .Inspect()
+//	-extra lit      literal direction: integer/float literal spellings and String#to_int (see lit.go)
 //	-extra rt       end to end: for every value v, text = v.inspect, the text is evaluated
 //	                in-process (checker + compiler + VM) and the result is compared with v by a
 //	                structural dump written here (independent of Inspect and of Elk's ==);
@@ -70,6 +71,9 @@ type evalRes struct {
 
 var nEval int
 
+// batchPrelude: definitions put in front of every batched program (set by the lit mode)
+var batchPrelude string
+
 // evalBatch evaluates every expression text; one program per batch, bisecting on failure.
 func evalBatch(texts []string) []evalRes { return evalBatchN(texts, 120) }
 
@@ -81,6 +85,7 @@ func evalBatchN(texts []string, B int) []evalRes {
 			return
 		}
 		var b strings.Builder
+		b.WriteString(batchPrelude)
 		b.WriteString("[\n")
 		for i := lo; i < hi; i++ {
 			b.WriteString("(")
@@ -800,6 +805,12 @@ func main() {
 			in := genInsp(r)
 			hx.Emit(fmt.Sprintf("g%d", i), in, runInsp(in))
 		}
+		return
+	}
+
+	if o.Extra == "lit" {
+		vm.InitGlobalEnvironment()
+		mainLit(o, r)
 		return
 	}
 
